@@ -3,9 +3,9 @@ import TTV.Model.StreamRouter
 import TTV.Spec.C18
 import TTV.Drv.StreamCodec
 /-! Driver glue for C18.
-input = `(hasFallback fbFlag (op…))`; op = `start` | `stop` | `(prefix sink chars consume flag)` | `(id sink tid? flag)` |
+input = `(hasFallback fbFlag (op…) (script…))` (the scripts may be left out); script = `(sink kind ((act…)…))`, act = `raise` | an add op; op = `start` | `stop` | `(prefix sink chars consume flag)` | `(id sink tid? flag)` |
 `(bad sink flag)` | `(status event)` | `(trip (chars…) event)`
-trace = `((sink sinkEv)…) (res…)`; sinkEv = `start` | `stop` | `(status event)`; res = `ok` | `(raised X)` | `(arrived event)` -/
+trace = `((item…)…) (res…)`: per operation what was observed; item = `(del sink sinkEv nested)` | `(radd op)` | `(exc X)`; sinkEv = `start` | `stop` | `(status event)`; res = `ok` | `(raised X)` | `(arrived event)` -/
 namespace TTV.Drv.C18
 open TTV TTV.Sexp TTV.Stream TTV.Stream.Router TTV.Drv.StreamCodec
 
@@ -19,9 +19,40 @@ def op? : Sexp → Option Op
   | .list [.atom "trip", cs, e] => do some (.roundTrip (← list? chars? cs) (← event? e))
   | _ => none
 
-def input? : Sexp → Option Input
-  | .list [a, b, c] => do some { hasFallback := ← bool? a, fbFlag := ← bool? b, ops := ← list? op? c }
+def addOp? (s : Sexp) : Option Op :=
+  match op? s with
+  | some (.addPrefix a b c d) => some (.addPrefix a b c d)
+  | some (.addId a b c) => some (.addId a b c)
+  | some (.addBad a b) => some (.addBad a b)
   | _ => none
+
+def act? : Sexp → Option Act
+  | .atom "raise" => some .raise
+  | s => (addOp? s).map .add
+
+def kind? : Sexp → Option Kind
+  | .atom "start" => some .start | .atom "stop" => some .stop | .atom "status" => some .status
+  | _ => none
+
+/-- `(sink kind (entry…))`, entry = `(act…)` -/
+def script? : Sexp → Option Script
+  | .list [a, b, c] => do some { sink := ← nat? a, kind := ← kind? b, entries := ← list? (list? act?) c }
+  | _ => none
+
+def input? : Sexp → Option Input
+  | .list [a, b, c] => do some { hasFallback := ← bool? a, fbFlag := ← bool? b, ops := ← list? op? c, scripts := [] }
+  | .list [a, b, c, d] => do
+      some { hasFallback := ← bool? a, fbFlag := ← bool? b, ops := ← list? op? c, scripts := ← list? script? d }
+  | _ => none
+
+def ofOp : Op → Sexp
+  | .start => .atom "start"
+  | .stop => .atom "stop"
+  | .addPrefix s p c f => tag "prefix" [ofNat s, ofChars p, ofBool c, ofBool f]
+  | .addId s t f => tag "id" [ofNat s, ofOpt ofNat t, ofBool f]
+  | .addBad s f => tag "bad" [ofNat s, ofBool f]
+  | .status e => tag "status" [ofEvent e]
+  | .roundTrip cs e => tag "trip" [ofList ofChars cs, ofEvent e]
 
 def sinkEv? : Sexp → Option SinkEv
   | .atom "start" => some .start
@@ -43,10 +74,20 @@ def ofRes : Res → Sexp
   | .raised x => tag "raised" [.atom x]
   | .arrived e => tag "arrived" [ofEvent e]
 
-def trace? : Sexp → Option Trace
-  | .list [a, b] => do some { deliveries := ← list? (pair? nat? sinkEv?) a, results := ← list? res? b }
+def item? : Sexp → Option Item
+  | .list [.atom "del", x, ev, n] => do some (.del (← nat? x) (← sinkEv? ev) (← bool? n))
+  | .list [.atom "radd", o] => (addOp? o).map .radd
+  | .list [.atom "exc", .atom x] => some (.exc x)
   | _ => none
-def ofTrace (t : Trace) : Sexp := .list [ofList (ofPair ofNat ofSinkEv) t.deliveries, ofList ofRes t.results]
+def ofItem : Item → Sexp
+  | .del x ev n => tag "del" [ofNat x, ofSinkEv ev, ofBool n]
+  | .radd o => tag "radd" [ofOp o]
+  | .exc x => tag "exc" [.atom x]
+
+def trace? : Sexp → Option Trace
+  | .list [a, b] => do some { segments := ← list? (list? item?) a, results := ← list? res? b }
+  | _ => none
+def ofTrace (t : Trace) : Sexp := .list [ofList (ofList ofItem) t.segments, ofList ofRes t.results]
 
 def drv : PropDrv Input Trace :=
   { decI := input?, decT := trace?, encT := ofTrace, model := model, clauses := Spec.C18.clauses }
